@@ -241,6 +241,11 @@ def rule_lens(ctx: RuleContext, p: Program, g: rx.Grammar, rid: str) -> None:
         n += 1
         site = f'{c.module.name.split(".", 1)[1]}:{c.name}'
         if ops is None:
+            ann = norm(fmt.node.args.args[1].annotation) if fmt.node.args.args[1].annotation else ''
+            if ann == 'str' and c.name not in ('EscapedString', 'BlockComment'):
+                n -= 1
+                delegated += 1            # the reader is not a chain of slices / strip calls: TOK-RT evaluates the pair on concrete texts instead
+                continue
             raise AnalysisError(f'LENS: {site}._parse_value peels the raw text in an unrecognised way')
         removed_pre, removed_suf = '', ''
         problems: list[str] = []
